@@ -5,6 +5,7 @@ import (
 	"sort"
 	"strings"
 	"testing"
+	"time"
 
 	"github.com/openebs/jiva/types"
 	"pgregory.net/rapid"
@@ -86,10 +87,36 @@ func runECase(ec ECase) (*Fail, []string, map[string]int, error) {
 	}
 	dead := map[string]bool{}
 	signalled := "" // latest successfully signalled address (ip)
+	// model of the registrations (from the requests sent, not from the controller's
+	// own map): address -> what it registered with; a replica that has been attached
+	// and was detached since has to register again to count
+	regModel := map[string]types.RegReplica{}
 	deadEvents := 0
+	consumed := map[string]bool{} // registrations of replicas that were seen attached since
+	syncModel := func() {
+		now := map[string]bool{}
+		for _, r := range st.C.VerifState().Replicas {
+			if nd := st.NodeByAddr(r.Address); nd != nil {
+				now[nd.IP] = true
+				consumed[nd.IP] = true
+			}
+		}
+		for ip := range consumed {
+			if !now[ip] {
+				// it was attached and is gone again (removed, or dropped by the controller
+				// by itself): it has to register again
+				delete(regModel, ip)
+				delete(consumed, ip)
+				if len(now) == 0 {
+					signalled = ""
+				}
+			}
+		}
+	}
 	for oi, op := range ec.Ops {
 		i := op.Node % len(ec.Specs)
 		sp := ec.Specs[i]
+		syncModel()
 		switch op.K {
 		case "sigfail":
 			st.Fac.mu.Lock()
@@ -124,7 +151,19 @@ func runECase(ec ECase) (*Fail, []string, map[string]int, error) {
 				}
 			}
 			st.Fac.mu.Unlock()
-			err := st.C.RegisterReplica(types.RegReplica{Address: ip, UUID: fmt.Sprintf("uuid-%d", i), RevCount: sp.Rev, RepType: "Backend", RepState: sp.State})
+			reg := types.RegReplica{Address: ip, UUID: fmt.Sprintf("uuid-%d", i), RevCount: sp.Rev, RepType: "Backend", RepState: sp.State}
+			err := st.C.RegisterReplica(reg)
+			for a, r := range regModel {
+				if r.UUID == reg.UUID && a != ip {
+					delete(regModel, a) // the same replica registering from a new address
+				}
+			}
+			regModel[ip] = reg
+			if attachedBefore == 0 && signalled != "" && ip != signalled && dead[signalled] {
+				// the replica that was asked to start does not answer any more: its
+				// registration lapses (it is not a reachable replica) and it has to register again
+				delete(regModel, signalled)
+			}
 			vs := st.C.VerifState()
 			sigs := st.Fac.SignalsCopy()[before:]
 			tr("#%d register n%d ip=%s rev=%d state=%s -> err=%v signals=%v registered=%v leader=%s", oi, i, ip, sp.Rev, sp.State, err, fmtSignals(sigs), regKeys(vs.Registered), vs.MaxRevReplica)
@@ -140,18 +179,17 @@ func runECase(ec ECase) (*Fail, []string, map[string]int, error) {
 				// S1: majority registered. The registered set at signal time is at
 				// least the current one plus the target if it was dropped afterwards.
 				regNow := map[string]types.RegReplica{}
-				for k, v := range vs.Registered {
+				for k, v := range regModel {
 					regNow[k] = v
 				}
 				nreg := len(regNow)
-				if _, ok := regNow[sg.Addr]; !ok {
-					nreg++ // removed after a failed signal
-				}
 				if nreg < ec.RF/2+1 {
-					return fail("election|signal-before-majority", fmt.Sprintf("start signal to %s with %d of RF=%d replicas registered", sg.Addr, nreg, ec.RF), "C09"), trace, labels, nil
+					return fail("election|signal-before-majority", fmt.Sprintf("start signal to %s with %d of RF=%d replicas registered (%v; the controller's own list: %v)", sg.Addr, nreg, ec.RF, regKeys(regNow), regKeys(vs.Registered)), "C09"), trace, labels, nil
 				}
 				if sg.Err != nil {
 					labels["start-signal-failed"]++
+					// it could not be reached: its registration lapses
+					delete(regModel, sg.Addr)
 					continue
 				}
 				// S2: a successful signal's target is the most up to date among
@@ -181,6 +219,33 @@ func runECase(ec ECase) (*Fail, []string, map[string]int, error) {
 				signalled = sg.Addr
 				labels["start-signal-ok"]++
 			}
+		case "down":
+			// every attached replica goes away (its process dies; the controller
+			// keeps running): the volume is down and has to be bootstrapped again
+			vs := st.C.VerifState()
+			if len(vs.Replicas) == 0 {
+				continue
+			}
+			for _, r := range vs.Replicas {
+				nd := st.NodeByAddr(r.Address)
+				if err := st.C.RemoveReplica(r.Address); err != nil {
+					return fail("election|remove-failed", err.Error(), "C18"), trace, labels, nil
+				}
+				if nd != nil {
+					// the replica process exits when its data connection ends and is started again
+					if err := nd.Restart(); err != nil {
+						return nil, nil, nil, fmt.Errorf("restart of %s: %v", nd.Name, err)
+					}
+					delete(regModel, nd.IP)
+				}
+			}
+			signalled = ""
+			labels["volume-down"]++
+			// the monitor goroutine of a removed backend removes "its" address once more
+			// when it wakes up (DESIGN 7.3: it is keyed by address); let it finish before
+			// the same replicas come back, or it takes the new incarnation down again
+			time.Sleep(400 * time.Millisecond)
+			tr("#%d down: %d replicas removed; registrations left: %v (controller: %v)", oi, len(vs.Replicas), regKeys(regModel), regKeys(st.C.VerifState().Registered))
 		case "start", "startmulti":
 			n := st.Nodes[i]
 			addrs := []string{n.Addr}
@@ -318,11 +383,29 @@ func genECase(t *rapid.T) ECase {
 			}
 		}
 		ec.Ops = append(ec.Ops, EOp{K: "start", Node: best})
+		if rapid.Bool().Draw(t, "secondlife") {
+			// the volume goes down while the controller keeps running and is
+			// bootstrapped a second time: replicas come back one by one
+			if rapid.Bool().Draw(t, "others") {
+				for _, i := range rapid.Permutation(seqInts(n)).Draw(t, "order3") {
+					if i != best && rapid.Bool().Draw(t, "joins") {
+						ec.Ops = append(ec.Ops, EOp{K: "startmulti", Node: best, More: []int{i}})
+					}
+				}
+			}
+			ec.Ops = append(ec.Ops, EOp{K: "down"})
+			for _, i := range rapid.Permutation(seqInts(n)).Draw(t, "order4") {
+				ec.Ops = append(ec.Ops, EOp{K: "register", Node: i})
+				if rapid.IntRange(0, 2).Draw(t, "startnow2") == 0 {
+					ec.Ops = append(ec.Ops, EOp{K: "start", Node: i})
+				}
+			}
+		}
 		return ec
 	}
 	nops := rapid.IntRange(2, 16).Draw(t, "nops")
 	for len(ec.Ops) < nops {
-		k := rapid.SampledFrom([]string{"register", "register", "register", "register", "start", "start", "startmulti", "sigfail", "dead", "alive"}).Draw(t, "op")
+		k := rapid.SampledFrom([]string{"register", "register", "register", "register", "start", "start", "startmulti", "sigfail", "dead", "alive", "down"}).Draw(t, "op")
 		op := EOp{K: k, Node: rapid.IntRange(0, n-1).Draw(t, "node")}
 		if k == "register" {
 			op.Alt = rapid.IntRange(0, 9).Draw(t, "alt") == 0
